@@ -30,13 +30,11 @@ func (m *Module) Init(s *models.Session, p *models.Participant) {
 	m.currentSession = s
 	m.currentParticipant = p
 
-	state, ok := s.ModuleState(m.Name())
-	if !ok {
-		// The grid belongs to the session: it is created once, with the
-		// session's state, and shared by every participant that joins.
-		state = &State{SpatialPartition: NewRegularGrid(1, 1, 2)}
-		s.SetModuleState(m.Name(), state)
-	}
+	// The grid belongs to the session: it is created once, with the
+	// session's state, and shared by every participant that joins.
+	state := s.ModuleStateOrInit(m.Name(), func() any {
+		return &State{SpatialPartition: NewRegularGrid(1, 1, 2)}
+	})
 	m.state = state.(*State)
 }
 
